@@ -32,6 +32,10 @@ def _gen(name, corr_is_property, extra_assumptions=()):
                 assumptions=["the model Codec.v transcribes src/codec.rs, src/compact.rs, src/bit_vec.rs and the derive expansion; agreement with the working tree is sampled on every run (registry of ~190 concrete types, seeded boundary-biased values and mutated byte strings); the theorems about the model are unbounded"] + list(extra_assumptions))
 
 PROPS.update({
+    "C15": dict(harness="c15", model_fn="c15_model", corr_is_property=True, harness_timeout=1200,
+        corr_name="CorrC15.c15_check: Append.append vs <Vec<T>/VecDeque<T> as EncodeAppend>::append_or_new",
+        trusted_base=["modelled, not verified: ExactSizeIterator::len of the item iterator is the item count n (a usize); the items' encodings concatenate to p (each item is encoded by its own Encode impl - C01); Vec::copy_from_slice panics on a length mismatch (modelled as APanic, proved unreachable)"],
+        assumptions=["the model Append.v transcribes append_or_new_impl branch by branch (in-place prefix rewrite / reallocation); agreement is sampled on every run, the theorems are unbounded"]),
     "C01": _gen("c01", True),
     "C02": _gen("c02", False, ["bit sequences (TBits) are outside the round-trip theorem (nobits hypothesis); they are covered by the correspondence and the implementation-side oracle only", "RangeInclusive's exhausted flag is not part of the model value (known finding F5)"]),
     "C03": _gen("c03", True, ["native stack exhaustion of plain decode on recursive user types is outside the model (known finding F7)"]),
